@@ -69,7 +69,8 @@ pub fn check(c: &Call, rep: &mut Report) {
     }
     // a retry into the same buffer whose PEC slot was damaged in the meantime must again end with the PEC
     if n >= 10 {
-        let mut init = obs.buf[..n + 2].to_vec();
+        let mut init = obs.buf[..n].to_vec();
+        init.extend_from_slice(&[0x3C, 0xC3]);
         init[n - 1] ^= 0xA5;
         let (res, out) = invoke_aligned(c, &init, n & 7);
         rep.eval();
